@@ -16,7 +16,11 @@ clause of the statement is a direct comparison against the generated input:
   linear       on the complete cells of an image that is bilinear between nodes (our own formula) the expanded
                image equals the original to 4 float32 ulp of the node range
   aux          a compressed file is accepted by load_image_band / _load_aux_image / load_globals and gives the shape
-               of the image (and the pixel values expand() gives)
+               of the image (and the pixel values expand() gives); get_aux_files (--autoload) offers compressed
+               <image>_bkg/_rms files like uncompressed ones, and `aegean --autoload` / `--background --noise` end up with
+               the same background/noise arrays and source count for both
+  file_spelling_*  a file named as pathlib.Path, bytes path or open binary file object is accepted like the str name
+               and gives the same result (compress, expand; Path/bytes also load_image_band and load_globals)
 
 Test images: float32 random everywhere, and - when there is at least one complete cell in each direction -
 bilinear between random node values on the complete cells (rows 0..K*f, K = (rows-1)//f), so that the remainder
@@ -54,10 +58,12 @@ ASSUMPTIONS = ['astropy.io.fits as file reader/writer (20-character float cards:
                'keyword tolerance 1e-9 (relative; absolute in pixels for |CRPIX| < 1): two float roundings of '
                '((c+f-1)/f-1)*f+1 are ~1e-13 for |c| < 1e4, a dropped or wrong offset is >= 1/64 pixel']
 MIN_REACH = {'fits_tools:compress': 1, 'fits_tools:expand': 1, 'fits_tools:load_image_band': 1,
-             'source_finder:SourceFinder._load_aux_image': 1}
+             'source_finder:SourceFinder._load_aux_image': 1, 'source_finder:get_aux_files': 1, 'CLI.aegean:main': 1}
 MIN_COUNTERS = {
     'quick': {'roundtrips': 15000, 'roundtrips_file': 1000, 'nodes_checked': 100000, 'linear_cells_judged': 5000,
-              'residual_rows_and_cols': 3000, 'factor_gt_size': 500, 'aux_loads': 100, 'crpix_special_values': 3000, 'crpix_equals_1_minus_factor': 400,
+              'residual_rows_and_cols': 3000, 'factor_gt_size': 500, 'aux_loads': 100, 'file_spellings_judged': 100, 'file_spelling_Path': 40, 'file_spelling_fileobj': 20,
+              'file_spelling_bytes': 40, 'autoload_offers_checked': 3, 'cli_aux_route_autoload': 3, 'cli_aux_route_explicit': 3,
+              'crpix_special_values': 3000, 'crpix_equals_1_minus_factor': 400,
               'crpix_equals_1_minus_factor_axis1': 150, 'crpix_equals_1_minus_factor_axis2': 150, 'bane_compressed_runs': 4, 'bane_products_judged': 8, 'bane_cli_runs': 2,
               'bane_pairs_through_load_globals': 2, 'tall_roundtrips': 60,
               'long_axis_gt_1024_factor_not_dividing_1024': 50, 'integer_pixel_roundtrips': 5000, 'integer_pixel_roundtrips_file': 300,
@@ -69,7 +75,9 @@ MIN_COUNTERS = {
                  'aux_loads': 400, 'integer_pixel_roundtrips': 15000, 'integer_pixel_roundtrips_file': 2000,
                  'integer_linear_images_factor_not_power_of_2': 5000, 'cd_headers': 8000, 'cd_rotated': 4000, 'cd_skewed': 4000,
                  'offdiagonal_cd_terms_compared': 15000, 'noninteger_crpix': 8000, 'negative_cdelt2': 3000,
-                 'sr6_runs': 100, 'crpix_special_values': 9000, 'crpix_equals_1_minus_factor': 1200,
+                 'sr6_runs': 100, 'file_spellings_judged': 400, 'file_spelling_Path': 160, 'file_spelling_fileobj': 80,
+                 'file_spelling_bytes': 160, 'autoload_offers_checked': 12, 'cli_aux_route_autoload': 12,
+                 'cli_aux_route_explicit': 12, 'crpix_special_values': 9000, 'crpix_equals_1_minus_factor': 1200,
                  'crpix_equals_1_minus_factor_axis1': 500, 'crpix_equals_1_minus_factor_axis2': 500, 'bane_compressed_runs': 16, 'bane_products_judged': 32, 'bane_cli_runs': 8,
                  'bane_pairs_through_load_globals': 8, 'tall_roundtrips': 300,
                  'long_axis_gt_1024_factor_not_dividing_1024': 250, 'long_axis_gt_4096': 40},
@@ -591,6 +599,245 @@ def aux_case(o, rng, rows, cols, f, idx, tmp):
     o.sample = dict(wit, note='compressed bkg/rms accepted by load_image_band, _load_aux_image, load_globals')
 
 
+# ----------------------------------------------------------------------------- spellings of "a file"
+def _spell(kind, path, fits, opened):
+    import pathlib
+    if kind == 'str':
+        return path
+    if kind == 'Path':
+        return pathlib.Path(path)
+    if kind == 'bytes':
+        return os.fsencode(path)
+    if kind == 'fileobj':
+        fo = open(path, 'rb')
+        opened.append(fo)
+        return fo
+    if kind == 'BytesIO':
+        import io
+        with open(path, 'rb') as fh:
+            return io.BytesIO(fh.read())
+    raise ValueError(kind)
+
+
+# what the statement's "file input" is taken to be (all of these are accepted by the code as it stands and by astropy):
+JUDGED_SPELLINGS = {'compress': ('str', 'Path', 'bytes', 'fileobj'), 'expand': ('str', 'Path', 'bytes', 'fileobj'),
+                    'load_image_band': ('str', 'Path', 'bytes'), 'load_globals': ('str', 'Path', 'bytes')}
+RECORDED_SPELLINGS = {'compress': ('BytesIO',), 'expand': ('BytesIO',), 'load_image_band': ('fileobj',), 'load_globals': ()}
+
+
+def spelling_case(o, rng, rows, cols, f, idx, tmp):
+    """the same file named as str, pathlib.Path, bytes path and open binary file object: compress, expand, load_image_band
+    (compressed file, whole and band (1,2)) and load_globals(bkgin=, rmsin=) must accept it and give what the str name
+    gives"""
+    from astropy.io import fits
+    from AegeanTools import fits_tools as ft
+    from AegeanTools.source_finder import SourceFinder
+    hdr, hinfo = header_for(idx, rows, cols, rng, f=f)
+    img, _ = make_image(rows, cols, f, rng)
+    p0, pc = os.path.join(tmp, 'sp.fits'), os.path.join(tmp, 'spc.fits')
+    fits.PrimaryHDU(img, header=hdr.copy()).writeto(p0, overwrite=True)
+    c = ft.compress(p0, f, outfile=pc)
+    if c is None:
+        o.violate('returns_none', {'stage': 'compress(str)', 'rows': rows, 'cols': cols, 'factor': f})
+        return
+    c.close()
+    wit = {'rows': rows, 'cols': cols, 'factor': f, 'header': hinfo}
+    opened = []
+
+    def outcome(op, kind):
+        """('ok', arrays...) or ('raises', text)"""
+        try:
+            if op == 'compress':
+                out = os.path.join(tmp, 'spo.fits')
+                r = ft.compress(_spell(kind, p0, fits, opened), f, outfile=out)
+                res = ('ok', np.array(r[0].data), float(r[0].header['CRPIX2']), np.array(fits.getdata(out)))
+                opened.append(r)
+                return res
+            if op == 'expand':
+                r = ft.expand(_spell(kind, pc, fits, opened))
+                res = ('ok', np.array(r[0].data), float(r[0].header['CRPIX2']))
+                opened.append(r)
+                return res
+            if op == 'load_image_band':
+                d, h = ft.load_image_band(_spell(kind, pc, fits, opened))
+                d2, h2 = ft.load_image_band(_spell(kind, pc, fits, opened), band=(1, 2))
+                return ('ok', np.array(d), float(h['CRPIX2']), np.array(d2), float(h2['CRPIX2']))
+            if op == 'load_globals':
+                sf = SourceFinder()
+                sf.load_globals(p0, bkgin=_spell(kind, pc, fits, opened), rmsin=_spell(kind, pc, fits, opened),
+                                do_curve=False, cores=1)
+                return ('ok', np.array(sf.global_data.bkgimg), np.array(sf.global_data.rmsimg))
+        except Exception:
+            return ('raises', _tail())
+        raise ValueError(op)
+
+    def same(a, b):
+        return len(a) == len(b) and all(np.array_equal(x, y, equal_nan=True) if isinstance(x, np.ndarray) else x == y
+                                        for x, y in zip(a[1:], b[1:]))
+
+    try:
+        for op in ('compress', 'expand', 'load_image_band', 'load_globals'):
+            ref = outcome(op, 'str')
+            if ref[0] != 'ok':
+                if op == 'load_globals':
+                    o.count('aux_baseline_rejected')
+                    continue
+                o.violate('raises', dict(wit, stage=op + '(str file name)', exc=ref[1]))
+                continue
+            for kind in JUDGED_SPELLINGS[op]:
+                if kind == 'str':
+                    continue
+                got = outcome(op, kind)
+                o.count('file_spellings_judged')
+                o.count('file_spelling_' + kind)
+                o.n_eval += 1
+                o.n_nontrivial += int(f > 1)
+                if got[0] != 'ok':
+                    o.violate('file_spelling_rejected', dict(wit, operation=op, spelling=kind, exc=got[1]))
+                elif not same(ref, got):
+                    o.violate('file_spelling_differs', dict(wit, operation=op, spelling=kind))
+            for kind in RECORDED_SPELLINGS[op]:
+                got = outcome(op, kind)
+                o.see('info_other_file_spelling', '%s(%s) -> %s' % (op, kind, got[0]))
+    finally:
+        for h_ in opened:
+            try:
+                h_.close()
+            except Exception:
+                pass
+    o.sample = dict(wit, spellings=JUDGED_SPELLINGS)
+
+
+# ----------------------------------------------------------------------------- every route by which Aegean takes aux files
+def autoload_case(o, rng, rows, cols, f, idx, tmp):
+    """<image>_bkg.fits / <image>_rms.fits next to the image, once uncompressed and once compressed (identical content
+    after expansion): get_aux_files must offer the same files, and the aegean command line with --autoload and with
+    --background/--noise must load the same background/noise arrays and find the same number of sources.  The noise map
+    is ~1000 times the true noise, so a run that uses it finds nothing while a run that silently falls back to its own
+    estimate finds the injected sources."""
+    import logging
+    from astropy.io import fits
+    from AegeanTools import fits_tools as ft, source_finder
+    from AegeanTools.CLI import aegean as cli
+    hdr, hinfo = header_for(idx, rows, cols, rng, allow_rot=False, f=f)
+    hdr['CTYPE1'], hdr['CTYPE2'] = 'RA---SIN', 'DEC--SIN'
+    hdr['BMAJ'], hdr['BMIN'], hdr['BPA'] = abs(hdr.get('CDELT2') or hdr.get('CD2_2')) * 3.5, \
+        abs(hdr.get('CDELT2') or hdr.get('CD2_2')) * 3.0, 0.0
+    wit = {'rows': rows, 'cols': cols, 'factor': f, 'header': hinfo}
+    yy, xx = np.mgrid[0:rows, 0:cols]
+    img = rng.normal(0, 1, (rows, cols))
+    for k in range(4):
+        y0, x0 = rng.uniform(12, rows - 12), rng.uniform(12, cols - 12)
+        img += 60.0 * np.exp(-((yy - y0) ** 2 + (xx - x0) ** 2) / (2 * 1.4 ** 2))
+    img = img.astype(np.float32)
+    bkg, _ = make_image(rows, cols, f, rng)
+    bkg = (bkg / max(float(np.max(np.abs(bkg))), 1e-30) * 0.2).astype(np.float32)
+    rms, _ = make_image(rows, cols, f, rng)
+    rms = (1000.0 + 100.0 * rms / max(float(np.max(np.abs(rms))), 1e-30)).astype(np.float32)
+    dirs = {}
+    for label in ('plain', 'compressed'):
+        d = os.path.join(tmp, label)
+        os.makedirs(d, exist_ok=True)
+        dirs[label] = d
+        fits.PrimaryHDU(img, header=hdr.copy()).writeto(os.path.join(d, 'field.fits'), overwrite=True)
+    for name, arr in (('bkg', bkg), ('rms', rms)):
+        pc = os.path.join(dirs['compressed'], 'field_%s.fits' % name)
+        c = ft.compress(fits.HDUList([fits.PrimaryHDU(arr.copy(), header=hdr.copy())]), f, outfile=pc)
+        if c is None:
+            o.violate('returns_none', dict(wit, stage='compress'))
+            return
+        with fits.open(pc) as hl:                       # the uncompressed twin holds exactly the expanded map
+            e = ft.expand(hl)
+            fits.PrimaryHDU(np.array(e[0].data), header=hdr.copy()).writeto(
+                os.path.join(dirs['plain'], 'field_%s.fits' % name), overwrite=True)
+    # route 1: what --autoload is offered
+    offered = {}
+    for label in ('plain', 'compressed'):
+        try:
+            files = source_finder.get_aux_files(os.path.join(dirs[label], 'field.fits'))
+        except Exception:
+            o.violate('raises', dict(wit, stage='get_aux_files (%s)' % label, exc=_tail()))
+            return
+        offered[label] = {k: (files.get(k) is not None) for k in ('bkg', 'rms')}
+    o.count('autoload_offers_checked')
+    o.n_eval += 1
+    o.n_nontrivial += 1
+    if offered['plain'] != {'bkg': True, 'rms': True}:
+        o.count('aux_baseline_rejected')
+    elif offered['compressed'] != offered['plain']:
+        o.violate('aux_rejected', dict(wit, by='get_aux_files (--autoload)', offered=offered))
+    # routes 2, 3: the command line, with the arrays load_globals ends up with captured
+    captured = []
+    orig = source_finder.SourceFinder.load_globals
+
+    def spy(self, *a, **kw):
+        r = orig(self, *a, **kw)
+        captured.append((kw.get('bkgin'), kw.get('rmsin'), np.array(self.global_data.bkgimg), np.array(self.global_data.rmsimg)))
+        return r
+    root = logging.getLogger()
+    alog = logging.getLogger('Aegean')
+    state = (root.level, list(root.handlers), alog.level)
+    results = {}
+    source_finder.SourceFinder.load_globals = spy
+    try:
+        for route in ('autoload', 'explicit'):
+            for label in ('plain', 'compressed'):
+                imgp = os.path.join(dirs[label], 'field.fits')
+                argv = [imgp, '--cores', '1', '--table', os.path.join(dirs[label], 'out_%s.csv' % route)]
+                if route == 'autoload':
+                    argv.append('--autoload')
+                else:
+                    argv += ['--background', os.path.join(dirs[label], 'field_bkg.fits'),
+                             '--noise', os.path.join(dirs[label], 'field_rms.fits')]
+                del captured[:]
+                try:
+                    with np.errstate():
+                        rc = cli.main(argv)
+                except BaseException as e:
+                    if isinstance(e, KeyboardInterrupt):
+                        raise
+                    results[(route, label)] = ('raises', _tail())
+                    continue
+                nsrc = 0
+                tab = os.path.join(dirs[label], 'out_%s_comp.csv' % route)
+                if os.path.exists(tab):
+                    with open(tab) as fh:
+                        nsrc = max(0, sum(1 for _ in fh) - 1)
+                    os.remove(tab)
+                results[(route, label)] = ('ok', rc, captured[-1][2] if captured else None,
+                                           captured[-1][3] if captured else None, nsrc)
+    finally:
+        source_finder.SourceFinder.load_globals = orig
+        root.setLevel(state[0])
+        for h_ in list(root.handlers):
+            if h_ not in state[1]:
+                root.removeHandler(h_)
+        alog.setLevel(state[2])
+    for route in ('autoload', 'explicit'):
+        a, b = results.get((route, 'plain')), results.get((route, 'compressed'))
+        if a is None or a[0] != 'ok' or a[1] != 0 or a[2] is None:
+            o.count('aux_baseline_rejected')
+            o.see('aux_baseline_exception', str(a)[-160:])
+            continue
+        o.count('aux_loads')
+        o.count('cli_aux_routes_checked')
+        o.count('cli_aux_route_' + route)
+        o.n_eval += 1
+        o.see('sources_found_with_the_supplied_noise_map', a[4])
+        w = dict(wit, route='aegean --' + ('autoload' if route == 'autoload' else 'background/--noise'))
+        if b is None or b[0] != 'ok' or b[1] != 0:
+            o.violate('aux_rejected', dict(w, outcome=str(b)[-600:]))
+        elif b[2] is None or b[2].shape != a[2].shape or b[3].shape != a[3].shape:
+            o.violate('aux_shape', dict(w, got=None if b[2] is None else [list(b[2].shape), list(b[3].shape)]))
+        elif not (np.array_equal(a[2], b[2], equal_nan=True) and np.array_equal(a[3], b[3], equal_nan=True)):
+            o.violate('aux_values', dict(w, what='background/noise arrays in use differ between the uncompressed and the '
+                                                 'compressed files', rms_median=[float(np.nanmedian(a[3])), float(np.nanmedian(b[3]))],
+                                         sources=[a[4], b[4]]))
+        elif a[4] != b[4]:
+            o.violate('aux_values', dict(w, what='number of sources found differs', sources=[a[4], b[4]]))
+    o.sample = dict(wit, offered=offered)
+
+
 # ----------------------------------------------------------------------------- SR6 CLI / BANE (thorough)
 def sr6_case(o, rng, rows, cols, f, idx, tmp, variant):
     from astropy.io import fits
@@ -831,6 +1078,11 @@ def cases(seed, tier):
     # BANE --compress: both tiers, through the API and through the command line
     for k in range(4 if tier == 'quick' else 16):
         out.append({'kind': 'bane', 'variant': ('api', 'cli')[k % 2], 'seed': [seed, 'bane', k]})
+    # the ways of naming a file, and the routes by which the aegean command line takes background/noise files
+    for k in range(4 if tier == 'quick' else 16):
+        out.append({'kind': 'spellings', 'n': 4, 'seed': [seed, 'spellings', k]})
+    for k in range(3 if tier == 'quick' else 12):
+        out.append({'kind': 'autoload', 'seed': [seed, 'autoload', k]})
     # tall / wide images (seed-independent shapes; the pixel values and headers are seeded)
     shapes = [(1500, 9), (2500, 7), (9, 1500), (4100, 5), (5000, 3), (7, 2500), (1025, 4), (1030, 6), (2049, 3),
               (3, 4100), (1100, 40)]
@@ -911,6 +1163,17 @@ def run(case):
             f = int(rng.choice([4, 5, 7, 8, 10]))
             bane_case(o, rng, rows, cols, f, int(rng.integers(0, 10000)), tmp, variant=case.get('variant', 'api'))
             o.sample = {'rows': rows, 'cols': cols, 'factor': f, 'variant': case.get('variant', 'api')}
+        elif kind == 'spellings':
+            for k in range(case['n']):
+                rows = int(rng.integers(4, 80))
+                cols = int(rng.integers(4, 80))
+                f = int(rng.choice([1, 2, 3, 4, 7, 10, 16]))
+                spelling_case(o, rng, rows, cols, f, int(rng.integers(0, 10000)), tmp)
+        elif kind == 'autoload':
+            rows = int(rng.integers(70, 110))
+            cols = int(rng.integers(70, 110))
+            f = int(rng.choice([4, 5, 8, 10]))
+            autoload_case(o, rng, rows, cols, f, int(rng.integers(0, 10000)), tmp)
         elif kind == 'tall':
             # size strata beyond typical chunk sizes: tall/narrow and wide/short images
             for k, (rows, cols, f) in enumerate(case['work']):
